@@ -79,7 +79,7 @@ def model_value(model, v, depth=0):
     if isinstance(v, list):
         return [model_value(model, x) for x in v]
     if isinstance(v, dict):
-        return {k: model_value(model, x) for k, x in v.items()}
+        return {(model_value(model, k) if isinstance(k, (Sym, tuple)) else k): model_value(model, x) for k, x in v.items()}
     if isinstance(v, (set, frozenset)):
         return sorted(model_value(model, x) for x in v)
     if isinstance(v, SymSeq):
